@@ -105,7 +105,7 @@ class C05(Check):
     HEADER = "From Verif Require Import C04.Model C05.Model."
     RUN = "run_case5"
     CASE_TYPE = "case5"
-    N_QUICK = 40          # programs; each explored over many schedules
+    N_QUICK = 24          # programs; each explored over many schedules
     N_THOROUGH = 400
     extra_dirs = ("C04",)
     RULE = ("programs of 2-3 threads x 1-3 calls (consume in 3 currencies with/without debt, regenerate, "
